@@ -188,6 +188,18 @@ struct HState : public LTIStateModel {
 // asymmetry in some off-diagonal entries, so that "untouched" is observable bit for bit (a symmetrisation
 // 0.5 (P + P^T) applied on the failure path changes such a belief and no other)
 static bool g_asym = false;
+// negative zeros and denormals in every field (seed % 8 >= 4): "identical to the predicted one" is bit-for-bit, so a
+// restore written as x + 0.0, x * 1.0, a copy through a flush-to-zero path or a comparison-based "copy only if
+// different" (-0.0 == 0.0) is observable only on such content.  Never every entry of a field.
+static bool g_noncanon = false;
+static void uncanonGM(GaussianMixture& b) {
+    long n = b.dim, k = b.components;
+    if (n > 1 || k > 1) b.mean(0)(0) = -0.0;
+    if (n > 1) b.mean(k - 1)(n - 1) = 4.9406564584124654e-324 * 3;
+    if (n > 2) b.mean(0)(1) = -2.2250738585072014e-308 / 4;
+    if (k > 1 && !std::isinf(b.weight(k - 1))) b.weight(k - 1) = -0.0;
+    if (n > 1) { b.covariance(0)(0, n - 1) = -0.0; b.covariance(0)(n - 1, 0) = 0.0; }      // equal as numbers, not as bits
+}
 static void fillGM(GaussianMixture& b, Rng& r) {
     long n = b.dim, k = b.components;
     for (long c = 0; c < k; ++c) {
@@ -203,10 +215,16 @@ static void fillGM(GaussianMixture& b, Rng& r) {
         if (k > 1) { b.weight(k - 1) = 0.0; b.mean(k - 1) = b.mean(0); b.covariance(k - 1) = b.covariance(0); }   // exact duplicate of component 0
         if (k > 2) b.covariance(1).setZero();                                                                  // singular
     }
+    if (g_noncanon) uncanonGM(b);
 }
 static void fillPS(ParticleSet& b, Rng& r) {
     fillGM(b, r);
     for (long c = 0; c < (long)b.components; ++c) for (long i = 0; i < (long)b.dim; ++i) b.state(c, i) = r.dy(4.0);
+    if (g_noncanon) {
+        if (b.components > 1) b.state(0, 0) = -0.0;
+        if (b.dim > 1 && b.components > 1) b.state(b.components - 1, b.dim - 1) = -4.9406564584124654e-324;
+        if (b.components > 2) b.state(1, 0) = 2.2250738585072014e-308 / 8;
+    }
 }
 static void poisonGM(GaussianMixture& b) { b.mean().setConstant(12345.0); b.covariance().setConstant(-54321.0); b.weight().setConstant(777.0); }
 static void poisonPS(ParticleSet& b) { poisonGM(b); b.state().setConstant(999.0); }
@@ -486,6 +504,7 @@ static std::string fault_case(Toks& t) {
     if (reps < 1 || reps > 8) throw vh::BadArgs("reps");
     Data12 d(seed, n, m, k);
     g_asym = (seed % 4 != 0);
+    g_noncanon = (seed % 8 >= 4);
     g_step = 0;
     if (cls == "kf" || cls == "ukfa" || cls == "ukfg" || cls == "ukfgo" || cls == "sukf") return gauss_case(cls, seed, d, sub, s, reps, alias);
     if (cls == "glik") return glik_case(seed, d, s, reps);
